@@ -211,7 +211,7 @@ class FnTranslator:
             c, a, b = self.expr(e.test, env), self.expr(e.body, env), self.expr(e.orelse, env)
             if not isinstance(c, B) or not same_shape(a, b) or not isinstance(a, (S, B)): raise Refuse('conditional expression')
             return type(a)(f'(if {c.e} then {a.e} else {b.e})')
-        if isinstance(e, ast.Tuple):
+        if isinstance(e, (ast.Tuple, ast.List)):
             return V([self.expr(x, env) for x in e.elts])
         if isinstance(e, ast.Subscript):
             base = self.expr(e.value, env)
@@ -238,6 +238,7 @@ class FnTranslator:
                 if len(args) != 2 or not all(isinstance(a, S) for a in args): raise Refuse('max/min need two ints')
                 return S(f'({f.split(".")[-1]} {args[0].e} {args[1].e})')
             if f == 'slice' and len(args) == 2: return V(args)
+            if f == 'np.array_equal' and len(args) == 2: return self.cmp('==', args[0], args[1])
             if f == 'np.all' and len(args) == 1:
                 a = args[0]
                 if isinstance(a, B): return a
